@@ -362,6 +362,18 @@ pub const HOSTILE_SIGS: &[&str] = &[
     "(L\u{e9})V", "([Lfoo/Bar\u{20ac})I", "(ILa/a;L\u{1f600})La/a;", "(\u{e9}L)V", "(L\u{e9};)V", "()L\u{e9}", "()L\u{e9};", "()[\u{e9}",
     "(L;)V", "(LL;;)V", "()\u{e9}", "(\u{1f600})\u{1f600}", "(Ia\u{308})V",
 ];
+/// descriptors at size thresholds: array depth and parameter count 127..300
+pub fn threshold_sigs() -> Vec<String> {
+    let mut v = Vec::new();
+    for n in [127usize, 128, 255, 256, 257, 300] {
+        v.push(format!("({}I)V", "[".repeat(n)));
+        v.push(format!("(){}La/b;", "[".repeat(n)));
+        v.push(format!("({})V", "I".repeat(n)));
+        v.push(format!("({})J", "La;".repeat(n)));
+    }
+    v
+}
+
 pub const HOSTILE_TEXT: &[&str] = &[
     "at )", "at (", "at \u{e9})", "at a.b(c:1)", "at .(:0)", "at a.b(:)", "at a.b(c:+5)", "\u{a0}at a.b(c:5)\u{3000}",
     "at\u{a0}a.b(c:5)", "at a.b(c:18446744073709551616)", "Caused by: ", "Caused by: \u{e9}: \u{e9}", ": ", "a: ", " : x", "\u{2028}", "at \u{e9}.\u{e9}(\u{e9}:1)",
@@ -382,6 +394,12 @@ fn sig_queries(out: &mut Out, rng: &mut Rng, dom: bool, u: &Universe, n: usize) 
     for s in HOSTILE_SIGS {
         out.t(dom, format!("SIG {}", hxs(s)));
         out.count("q_sig_fixed");
+    }
+    if rng.pct(5) {
+        for s in threshold_sigs() {
+            out.t(dom, format!("SIG {}", hxs(&s)));
+            out.count("q_sig_threshold");
+        }
     }
 }
 
@@ -414,6 +432,52 @@ fn big_class_cfg() -> Cfg {
     cfg
 }
 
+/// one class with `n` entries of the same obfuscated method (thresholds of windowed scans,
+/// unstable sorts, small-vector spills): alternating range shapes, a long inline group
+pub fn threshold_mapping(n: usize) -> Vec<u8> {
+    let mut t = String::from("o.Big -> big:\n");
+    for i in 0..n {
+        if i % 3 == 0 {
+            t.push_str(&format!("    {}:{}:void f{}():{}:{} -> a\n", i + 1, i + 1, i, 1000 + i, 1000 + i));
+        } else if i % 3 == 1 {
+            t.push_str(&format!("    {}:{}:void o.X.g{}(int):{} -> a\n", i + 1, i + 3, i, 7));
+        } else {
+            t.push_str(&format!("    void h{}() -> a\n", i % 5));
+        }
+    }
+    // a long inline group (identical ranges) under another name
+    for i in 0..n {
+        t.push_str(&format!("    5:9:void inl{}():{} -> b\n", i, i));
+    }
+    t.push_str("o.Small -> small:\n    1:1:void x():1:1 -> a\n");
+    t.into_bytes()
+}
+
+pub const THRESHOLDS: &[usize] = &[127, 128, 129, 130, 255, 256, 257, 300];
+
+fn threshold_cases(out: &mut Out, rng: &mut Rng, th: bool, frl: bool, frp: bool) {
+    let sizes: Vec<usize> = if th { THRESHOLDS.to_vec() } else { vec![rng.pick(&[129usize, 130, 257]), 300] };
+    for n in sizes {
+        let text = threshold_mapping(n);
+        map_op(out, true, &text);
+        out.count("threshold_mappings");
+        out.d(format!("MTH {} {}", hxs("big"), hxs("a")));
+        out.d(format!("MTH {} {}", hxs("big"), hxs("b")));
+        if frl {
+            for l in [0usize, 1, 2, 3, 5, 7, 9, 10, 64, 100, 127, 128, 129, 130, 131, 200, 255, 256, 257, 258, 271, 272, 299, 300, 301, 1000] {
+                out.d(format!("FRL {} {} {} -", hxs("big"), hxs("a"), l));
+                out.d(format!("FRL {} {} {} {}", hxs("big"), hxs("b"), l, hxs("F")));
+            }
+        }
+        if frp {
+            for a in ["", "int", "zz"] {
+                out.d(format!("FRP {} {} {}", hxs("big"), hxs("a"), hxs(a)));
+                out.d(format!("FRP {} {} {}", hxs("big"), hxs("b"), hxs(a)));
+            }
+        }
+    }
+}
+
 pub fn gen_c01(rng: &mut Rng, tier: &str, out: &mut Out) {
     let th = thorough(tier);
     let n = if th { 1500 } else { 360 };
@@ -431,6 +495,7 @@ pub fn gen_c01(rng: &mut Rng, tier: &str, out: &mut Out) {
         let u = universe(&text);
         frl_queries(out, rng, true, &u, if th { 66 } else { 13 }, if th { 120 } else { 34 });
     }
+    threshold_cases(out, rng, th, true, false);
     // a mapping whose answers exercise every boundary of a 3-line range (non-vacuity anchor)
     let anchor = b"o.A -> a:\n    7:9:void x():78:80 -> m\n    10:10:void y():5 -> m\n    void z() -> m\n";
     map_op(out, true, anchor);
@@ -484,6 +549,10 @@ pub fn gen_c02(rng: &mut Rng, tier: &str, out: &mut Out) {
             }
         }
         map_op(out, true, &text);
+        if i % 12 == 5 {
+            // a failed write earlier in the process must not leak into the cache used below
+            out.d(format!("SINK {} {} -", rng.range(1, 64), rng.range(24, 300)));
+        }
         let u = universe(&text);
         cls_queries(out, rng, true, &u);
         mth_queries(out, true, &u, 40);
@@ -502,6 +571,22 @@ pub fn gen_c02(rng: &mut Rng, tier: &str, out: &mut Out) {
         }
         out.d(format!("TYPS {}", tg.tokens(rng, false)));
         sig_queries(out, rng, true, &u, 4);
+    }
+    threshold_cases(out, rng, th, true, true);
+    {
+        // obfuscated class names at the length-prefix boundaries
+        let mut t = String::new();
+        let lens = [127usize, 128, 255, 256, 262, 300, 383, 384, 511, 512, 600, 16383, 16384, 16500];
+        for (i, len) in lens.iter().enumerate() {
+            t.push_str(&format!("o.C{} -> {}:\n    1:1:void m():1:1 -> a\n", i, "q".repeat(*len)));
+        }
+        map_op(out, true, t.as_bytes());
+        for len in lens {
+            let name = "q".repeat(len);
+            out.d(format!("CLS {}", hxs(&name)));
+            out.d(format!("FRL {} {} 1 -", hxs(&name), hxs("a")));
+            out.d(format!("CLS {}", hxs(&"q".repeat(len + 1))));
+        }
     }
     // out-of-domain mappings: the tie still has to hold (empty names, huge numbers)
     for _ in 0..(if th { 300 } else { 25 }) {
@@ -552,6 +637,7 @@ pub fn gen_c03(rng: &mut Rng, tier: &str, out: &mut Out) {
         let u = universe(&text);
         frp_queries(out, true, &u);
     }
+    threshold_cases(out, rng, th, false, true);
     // F1 anchor: first class has more members than by-params entries
     let anchor = b"o.A -> a:\n    1:1:void x():5:5 -> m\n    1:1:void y():6 -> m\n    void z(int) -> n\no.B -> b:\n    void q(int) -> k\n";
     map_op(out, true, anchor);
@@ -921,6 +1007,35 @@ pub fn gen_c09(rng: &mut Rng, tier: &str, out: &mut Out) {
             out.d(format!("FMT {}", hx(&bytes)));
         }
     }
+    {
+        // strings whose LEB128 length prefix has 1, 2 and 3 bytes, at the exact boundaries
+        let mut t = String::new();
+        for (i, len) in [127usize, 128, 255, 256, 300, 383, 384, 16383, 16384, 16385, 20000].iter().enumerate() {
+            t.push_str(&format!("o.{} -> c{}:\n    1:1:void m{}():1:1 -> a\n", "n".repeat(len - 2), i, "x".repeat(if i % 2 == 0 { 130 } else { 3 })));
+        }
+        map_op(out, true, t.as_bytes());
+        out.d("WRITE".into());
+        let bytes = crate::proto::cur::write_cache_safe(t.as_bytes());
+        out.d(format!("BUF {}", hx(&bytes)));
+        out.d("BTEST".into());
+        if fmt_enabled() {
+            out.d(format!("FMT {}", hx(&bytes)));
+        }
+        for i in 0..11 {
+            out.d(format!("BCLS {}", hxs(&format!("c{}", i))));
+        }
+    }
+    for n in [130usize, 300] {
+        let text = threshold_mapping(n);
+        map_op(out, true, &text);
+        out.d("WRITE".into());
+        let bytes = crate::proto::cur::write_cache_safe(&text);
+        out.d(format!("BUF {}", hx(&bytes)));
+        out.d("BTEST".into());
+        if fmt_enabled() {
+            out.d(format!("FMT {}", hx(&bytes)));
+        }
+    }
     for (name, text) in small_corpus() {
         let dom = is_representable(&text);
         map_op(out, dom, &text);
@@ -1002,7 +1117,19 @@ pub fn gen_c11(rng: &mut Rng, tier: &str, out: &mut Out) {
         let mut cfg = Cfg::domain();
         cfg.max_classes = 3;
         cfg.max_members = 4;
-        let text = if i == 0 { Vec::new() } else { domain_mapping(rng, &cfg) };
+        let mut text = if i == 0 { Vec::new() } else { domain_mapping(rng, &cfg) };
+        if i % 8 == 3 {
+            // the file's last string is long (2- or 3-byte length prefix)
+            if !text.is_empty() && !matches!(text.last(), Some(b'\n') | Some(b'\r')) {
+                text.push(b'\n');
+            }
+            let len = rng.pick(&[127usize, 128, 129, 200, 300, 16383, 16384, 16400]);
+            match rng.below(3) {
+                0 => text.extend_from_slice(format!("o.{} -> zlast:", "L".repeat(len)).as_bytes()),
+                1 => text.extend_from_slice(format!("o.Z -> zlast:\n    void m({}) -> a", "p".repeat(len)).as_bytes()),
+                _ => text.extend_from_slice(format!("o.Z -> zlast:\n    void o.{}.m() -> a\n", "F".repeat(len)).as_bytes()),
+            }
+        }
         let u = universe(&text);
         let bytes = crate::proto::cur::write_cache_safe(&text);
         out.d(format!("BUF {}", hx(&bytes)));
@@ -1034,6 +1161,27 @@ pub fn gen_c11(rng: &mut Rng, tier: &str, out: &mut Out) {
             if let Some((cl, m)) = u.pairs.first() {
                 out.d(format!("BCLS {}", hxs(cl)));
                 out.d(format!("BFRL {} {} 1 -", hxs(cl), hxs(m)));
+            }
+        }
+        // every permutation of the magic bytes
+        if bytes.len() >= 4 {
+            let m = [bytes[0], bytes[1], bytes[2], bytes[3]];
+            for a in 0..4 {
+                for b in 0..4 {
+                    for c in 0..4 {
+                        for d in 0..4 {
+                            if a != b && a != c && a != d && b != c && b != d && c != d {
+                                let mut bb = bytes.clone();
+                                bb[0] = m[a];
+                                bb[1] = m[b];
+                                bb[2] = m[c];
+                                bb[3] = m[d];
+                                out.d(format!("BUF {}", hx(&bb)));
+                                out.count("magic_permutations");
+                            }
+                        }
+                    }
+                }
             }
         }
         // header edits
@@ -1175,6 +1323,9 @@ pub fn gen_c12(rng: &mut Rng, tier: &str, out: &mut Out) {
         for s in HOSTILE_SIGS {
             out.d(format!("BSIG {}", hxs(s)));
         }
+        for s in threshold_sigs() {
+            out.d(format!("BSIG {}", hxs(&s)));
+        }
         for s in HOSTILE_TEXT {
             out.d(format!("BTXT {}", hxs(s)));
             out.d(format!("BTYP {}", hxs(s)));
@@ -1249,6 +1400,15 @@ pub fn gen_c14(rng: &mut Rng, tier: &str, out: &mut Out) {
         let g = gen_mapping(rng, &cfg);
         map_op(out, true, &g.text);
         out.d("WRITE".into());
+        if i % 6 == 1 {
+            // a write that fails half-way, then the same and another mapping again
+            out.d(format!("SINK {} {} -", rng.range(1, 64), rng.range(24, 200)));
+            map_op(out, true, &g.text);
+            out.d("WRITE".into());
+            let h = gen_mapping(rng, &Cfg::domain());
+            map_op(out, true, &h.text);
+            out.d("WRITE".into());
+        }
     }
     for (name, text) in small_corpus() {
         map_op(out, true, &text);
